@@ -1,6 +1,7 @@
 import HapVerif.Model.C11
 import HapVerif.Drv.C02
 import HapVerif.Drv.C11Sync
+import HapVerif.Model.C11AuthP
 namespace HapVerif.C11
 open HapVerif.Drv HapVerif.C02
 
@@ -73,11 +74,86 @@ def handleMulti (shardsT shardOfT cfgT stepsTxt impl : String) : Verdict :=
     { model := mtxt, agree := mtxt = impl, oracle := verdict, trivial := triv }
   | _, _, _, _ => bad "multi-parse"
 
+/-! ### `authp`: the auth proxy port allocator (Model/C11AuthP) against `Frontend.AcquireAuthBackendName` & co
+
+`authp <lo> <hi> <op>,<op>,…` with op = `a<b>` (acquire backend b), `x<port>.<port>…` (RemoveAuthBackendExcept, the
+names `_auth_<port>` in use), `t<b>.<b>…` (RemoveAuthBackendByTarget), `c` (Commit);
+impl: per op `<answer>/<changed>/<port>:<back>+…` joined by `;` (answer = port, `full`, or `-`) -/
+namespace AuthP
+open HapVerif.C11AuthP
+
+def parseNats (s : String) : Option (List Nat) := if s = "" then some [] else (s.splitOn ".").mapM (·.toNat?)
+
+def parseOp (s : String) : Option Op :=
+  if s = "c" then some .commit else
+  match s.toList with
+  | 'a' :: r => (String.ofList r).toNat?.map .acq
+  | 'x' :: r => (parseNats (String.ofList r)).map .except
+  | 't' :: r => (parseNats (String.ofList r)).map .target
+  | _ => none
+
+def parseBind (s : String) : Option Bind :=
+  match s.splitOn ":" with
+  | [p, b] => do pure { port := ← p.toNat?, back := ← b.toNat? }
+  | _ => none
+
+def showBinds (l : List Bind) : String :=
+  if l.isEmpty then "-" else "+".intercalate (l.map fun x => toString x.port ++ ":" ++ toString x.back)
+
+def showStep (ans : Option Nat) (isAcq : Bool) (f : Front) : String :=
+  (match ans with | some p => toString p | none => if isAcq then "full" else "-") ++ "/" ++
+    (if f.changed then "1" else "0") ++ "/" ++ showBinds f.binds
+
+def parseObs (o : Op) (t : String) : Option HapVerif.C11AuthP.Obs :=
+  match t.splitOn "/" with
+  | [a, c, bs] => do
+    if c ≠ "0" ∧ c ≠ "1" then none
+    let binds ← if bs = "-" then some [] else parseList parseBind bs "+"
+    let ans ← if a = "full" ∨ a = "-" then some none else a.toNat?.map some
+    pure ({ op := o, ans := ans, binds := binds, changed := c = "1" } : HapVerif.C11AuthP.Obs)
+  | _ => none
+
+/-- an acquire of a backend whose bind sits behind an unused port of the range -/
+def behindHole (lo : Nat) (before : List Bind) : Op → Bool
+  | .acq b =>
+    match before.find? (·.back = b) with
+    | some x => (List.range (x.port - lo)).any fun k => !before.any (·.port = lo + k)
+    | none => false
+  | _ => false
+
+def handle (loT hiT opsT impl : String) : Verdict :=
+  match loT.toNat?, hiT.toNat?, parseList parseOp opsT with
+  | some lo, some hi, some ops =>
+    let run := ops.foldl (fun (acc : Front × List String × Bool) o =>
+      let f := acc.1
+      let (ans, f') : Option Nat × Front := match o with
+        | .acq b => acquire f b
+        | _ => (none, HapVerif.C11AuthP.step f o)
+      (f', acc.2.1 ++ [showStep ans (match o with | .acq _ => true | _ => false) f'], acc.2.2 || behindHole lo f.binds o))
+      (empty lo hi, [], false)
+    let mtxt := ";".intercalate run.2.1
+    let toks := impl.splitOn ";"
+    let verdict : Option String :=
+      if impl = "PANIC" then some "panic" else
+      if toks.length ≠ ops.length then some "unparsable-implementation-output" else
+      match (ops.zip toks).mapM fun (o, t) => parseObs o t with
+      | none => some "unparsable-implementation-output"
+      | some obs =>
+        (obs.foldl (fun (acc : List Bind × Bool × Option String) o =>
+          match acc.2.2 with
+          | some c => (o.binds, o.changed, some c)
+          | none => (o.binds, o.changed, opOracle lo hi acc.1 acc.2.1 o)) ([], false, none)).2.2
+    { model := mtxt, agree := mtxt = impl, oracle := verdict, trivial := !run.2.2 }
+  | _, _, _ => bad "authp-parse"
+
+end AuthP
+
 /-- `align <flags> <eps>` impl: `<eps after>`;  `fits <flags> <old> <cur>` and `noop <flags> <eps>`
 impl: `<0|1> <cmds> <cur'>` -/
 def handle (args : List String) (impl : String) : Verdict :=
   match args with
   | "world" :: ops => C11Sync.handleWorld ops impl
+  | ["authp", lo, hi, ops] => AuthP.handle lo hi ops impl
   | ["align", fl, epss] =>
     match parseFlags fl, parseList parseEP epss, parseList parseEP impl with
     | some f, some eps, some after =>
